@@ -252,6 +252,31 @@ def run_op(op, stream, resolve, *, skip=False, failing=None, sink_log=None):
   raise ValueError(kind)
 
 
+def run_aggregates(aggs, stream, make_agg):
+  """Brute force of stacked aggregates over a list of records (C02 statement, C08 keys).
+
+  aggs: [{'in': keys, 'out': keys, ...}]; make_agg(spec) -> a fresh user aggregate
+  (create_state / update_state / get_result).  Every aggregate function is applied
+  directly to the selected inputs of all records, in stream order; its outputs are
+  paired with its output keys by rules 3-4 (an output under SKIP is dropped) on top
+  of one common result.  Undefined when an aggregate keeps no output at all.
+  """
+  result = EMPTY
+  for spec in aggs:
+    fn = make_agg(spec)
+    state = fn.create_state()
+    for rec in stream:
+      args, kwargs = select(rec, spec['in'])
+      state = fn.update_state(state, *args, **kwargs)
+    outs = normalize(fn.get_result(state), spec['out'])
+    if all(_is(k, 'skip') for k in spec['out']['keys']):
+      raise Undefined('an aggregate that keeps no output')
+    if len(spec['out']['keys']) != len(outs):
+      raise Undefined('aggregate outputs and output keys do not pair 1:1')
+    result = set_outputs(result, spec['out'], outs)
+  return result
+
+
 def run_chain(chain, stream, resolve, *, skip=False):
   """Evaluates a chain on deep copies; returns (stream, per-op info).
 
